@@ -895,6 +895,57 @@ func runC12(c *Ctx) {
 		m.NewObjectFrom(g)
 	}
 	nontrivial := func(g *GV) bool { return !(g.K == 'n' || g.K == 'b' || g.K == 'i' || g.K == 'd' || g.K == 's') }
+	entry := func(g *GV) {
+		l := m.NewList(gvInt(1), gvInt(2), gvInt(3))
+		if t := m.NewList(g); t != "" {
+			probeList(m, t, 0)
+		}
+		if t := m.NewListOf(g, 2); t != "" {
+			probeList(m, t, 1)
+		}
+		m.Add(l, g)
+		probeList(m, l, 3)
+		m.Insert(l, 1, g)
+		probeList(m, l, 1)
+		m.Replace(l, 0, g)
+		probeList(m, l, 0)
+		m.SetTF(l, "#6", g)
+		probeList(m, l, 6)
+		o := m.NewObject(gvStr("x"), gvInt(0))
+		if t := m.NewObject(gvStr("k"), g); t != "" {
+			probeObj(m, t, "k")
+		}
+		m.OSet(o, gvStr("k"), g)
+		probeObj(m, o, "k")
+		m.OSetTF(o, ".t.u", g)
+		m.OGetTF(o, ".t.u")
+		m.OTypeOfTF(o, ".t.u")
+		m.SetTF(l, "#0#1.z", g)
+		m.GetTF(l, "#0#1.z")
+		if g.K == '(' {
+			if t := m.NewListFrom(g); t != "" && len(g.Xs) > 0 {
+				probeList(m, t, 0)
+			}
+		}
+		if g.K == '<' {
+			if t := m.NewObjectFrom(g); t != "" && len(g.Xs) > 0 {
+				probeObj(m, t, g.Keys[0])
+			}
+		}
+		// results of Map callbacks
+		src := m.NewList(gvInt(1), gvStr("s"))
+		if t := m.Map(src, &Fn{Name: "const", Const: g}); t != "" {
+			probeList(m, t, 1)
+		}
+		if t := m.MapK(src, 'i', &Fn{Name: "const", Const: g}); t != "" {
+			probeList(m, t, 0)
+		}
+		so := m.NewObject(gvStr("a"), gvInt(1))
+		if t := m.OMap(so, &Fn{Name: "const", Const: g}); t != "" {
+			probeObj(m, t, "a")
+		}
+		c.St.Eval(g.Token(), nontrivial(g))
+	}
 	for _, g := range vals {
 		m.Case("entry-points")
 		inner := m.NewList(gvInt(1))
@@ -906,55 +957,18 @@ func runC12(c *Ctx) {
 				&GV{K: '<', Fl: 'o', Xs: []*GV{m.RefGV(innerO)}, Keys: []string{"o"}}, &GV{K: '<', Fl: 'l', Xs: []*GV{m.RefGV(inner)}, Keys: []string{"l"}})
 		}
 		for _, g := range gs {
-			l := m.NewList(gvInt(1), gvInt(2), gvInt(3))
-			if t := m.NewList(g); t != "" {
-				probeList(m, t, 0)
-			}
-			if t := m.NewListOf(g, 2); t != "" {
-				probeList(m, t, 1)
-			}
-			m.Add(l, g)
-			probeList(m, l, 3)
-			m.Insert(l, 1, g)
-			probeList(m, l, 1)
-			m.Replace(l, 0, g)
-			probeList(m, l, 0)
-			m.SetTF(l, "#6", g)
-			probeList(m, l, 6)
-			o := m.NewObject(gvStr("x"), gvInt(0))
-			if t := m.NewObject(gvStr("k"), g); t != "" {
-				probeObj(m, t, "k")
-			}
-			m.OSet(o, gvStr("k"), g)
-			probeObj(m, o, "k")
-			m.OSetTF(o, ".t.u", g)
-			m.OGetTF(o, ".t.u")
-			m.OTypeOfTF(o, ".t.u")
-			m.SetTF(l, "#0#1.z", g)
-			m.GetTF(l, "#0#1.z")
-			if g.K == '(' {
-				if t := m.NewListFrom(g); t != "" && len(g.Xs) > 0 {
-					probeList(m, t, 0)
-				}
-			}
-			if g.K == '<' {
-				if t := m.NewObjectFrom(g); t != "" && len(g.Xs) > 0 {
-					probeObj(m, t, g.Keys[0])
-				}
-			}
-			// results of Map callbacks
-			src := m.NewList(gvInt(1), gvStr("s"))
-			if t := m.Map(src, &Fn{Name: "const", Const: g}); t != "" {
-				probeList(m, t, 1)
-			}
-			if t := m.MapK(src, 'i', &Fn{Name: "const", Const: g}); t != "" {
-				probeList(m, t, 0)
-			}
-			so := m.NewObject(gvStr("a"), gvInt(1))
-			if t := m.OMap(so, &Fn{Name: "const", Const: g}); t != "" {
-				probeObj(m, t, "a")
-			}
-			c.St.Eval(g.Token(), nontrivial(g))
+			entry(g)
+		}
+	}
+	// containers themselves as the stored value: plain ones and user types embedding a List / an Object one and two
+	// levels deep are of kind list / object through every entry point, for TypeOf, Get and every typed getter
+	for rep := 0; rep < 2; rep++ {
+		m.Case("entry-points-containers")
+		pl, po := m.NewList(gvInt(1)), m.NewObject(gvStr("a"), gvInt(1))
+		dl, do := m.Derive(m.NewList(gvInt(2))), m.Derive(m.NewObject(gvStr("b"), gvInt(2)))
+		ddl, ddo := m.Derive(m.Derive(m.NewList())), m.Derive(m.Derive(m.NewObject()))
+		for _, h := range []string{pl, po, dl, do, ddl, ddo} {
+			entry(m.RefGV(h))
 		}
 	}
 	// narrowing callbacks and an unsupported result in the middle of a Map
@@ -1214,6 +1228,7 @@ func runC14(c *Ctx) {
 	c.derivedCorners("C14")
 	c.lateDerived("C14")
 	c.reentrant("C14")
+	c.interfering("C14")
 	// a callback whose result cannot be stored: every Map variant panics (nothing is silently left out), the source stays
 	m.Case("unstorable-results")
 	{
@@ -1240,6 +1255,51 @@ func runC14(c *Ctx) {
 				m.OMapK(so, k, f)
 			}
 		}
+	}
+	// homogeneous containers of every kind, with plain and derived (embedding) members for the container kinds:
+	// All* holds exactly for the kind, every typed view sees all the members
+	for rep := 0; rep < 3; rep++ {
+		m.Case("homogeneous")
+		pl, po := m.NewList(gvInt(1)), m.NewObject(gvStr("a"), gvInt(1))
+		dl, do := m.Derive(m.NewList(gvInt(2))), m.Derive(m.NewObject(gvStr("b"), gvInt(2)))
+		ddl, ddo := m.Derive(m.Derive(m.NewList())), m.Derive(m.Derive(m.NewObject()))
+		homo := map[byte][][]*GV{
+			'l': {{m.RefGV(dl)}, {m.RefGV(pl), m.RefGV(dl)}, {m.RefGV(dl), m.RefGV(ddl), m.RefGV(dl)}, {m.RefGV(pl), m.RefGV(pl)}},
+			'o': {{m.RefGV(do)}, {m.RefGV(po), m.RefGV(do)}, {m.RefGV(do), m.RefGV(ddo), m.RefGV(do)}, {m.RefGV(po), m.RefGV(po)}},
+			's': {{gvStr("")}, {gvStr("a"), gvStr("a")}},
+			'b': {{gvBool(false)}, {gvBool(true), gvBool(false)}},
+			'i': {{gvInt(0)}, {gvInt(1), gvInt(-1)}},
+			'f': {{gvFloat(0)}, {gvFloat(1), gvFloat(2.5)}},
+		}
+		for _, k := range []byte("olsbif") {
+			for _, gs := range homo[k] {
+				if rep == 1 { // the members arrive one by one
+					gs = append([]*GV{}, gs...)
+				}
+				var l string
+				if rep == 1 {
+					l = m.NewList()
+					for _, g := range gs {
+						m.Add(l, g)
+					}
+				} else {
+					l = m.NewList(gs...)
+				}
+				if rep == 2 {
+					l = m.Clone(l)
+				}
+				for _, k2 := range []byte("olsbifn") {
+					m.AllK(l, k2)
+				}
+				m.SliceK(l, k)
+				m.ForEachK(l, k)
+				m.MapK(l, k, &Fn{Name: "id"})
+				if k != 'b' {
+					m.FilterK(l, k, "all")
+				}
+			}
+		}
+		c.St.Eval(fmt.Sprintf("homogeneous:%d", rep), true)
 	}
 	fns := []*Fn{{Name: "id"}, {Name: "inc"}, {Name: "tostr"}, {Name: "idx"}, {Name: "const", Const: gvStr("c")}}
 	preds := []string{"all", "none", "par"}
@@ -1477,6 +1537,32 @@ func runC18(c *Ctx) {
 		}
 	}
 	c.St.Exhaustive = append(c.St.Exhaustive, fmt.Sprintf("all numeric lists of length 0..%d over %d values", maxLen, len(alph)))
+	// sentinel values: the values an implementation may use as an initial accumulator or as "nothing seen yet"
+	// (+-MaxFloat64, MaxInt, MinInt, the zeros, the smallest subnormals) as the only content of a list
+	sent := []*GV{gvFloat(-math.MaxFloat64), gvFloat(math.MaxFloat64), gvInt(math.MaxInt64), gvInt(math.MinInt64),
+		gvFloat(math.Copysign(0, -1)), gvFloat(0), gvInt(0), gvFloat(5e-324), gvFloat(-5e-324), gvInt(1), gvInt(-1)}
+	sentLen := c.N(2, 3)
+	for n := 1; n <= sentLen; n++ {
+		total := 1
+		for i := 0; i < n; i++ {
+			total *= len(sent)
+		}
+		for s := 0; s < total; s++ {
+			m.Case("sentinel-numeric")
+			x := s
+			gs := make([]*GV, n)
+			for i := range gs {
+				gs[i] = sent[x%len(sent)]
+				x /= len(sent)
+			}
+			l := m.NewList(gs...)
+			for _, a := range aggs {
+				m.Agg(l, a)
+			}
+			c.St.Eval(gvTokens(gs), n >= 2)
+		}
+	}
+	c.St.Exhaustive = append(c.St.Exhaustive, fmt.Sprintf("all lists of length 1..%d over %d sentinel values", sentLen, len(sent)))
 	for i := 0; i < c.N(600, 10000); i++ {
 		m.Case("random-numeric")
 		n := r.Intn(12)
